@@ -71,6 +71,9 @@ type SRegRec struct {
 	Owner   string   `json:"owner,omitempty"`
 	TgtPChs []string `json:"tgt_pchs,omitempty"`
 	CkptMs  int64    `json:"ckpt_ms,omitempty"`
+	// Closed / CloseStep: the stream was deregistered in its incarnation at that step
+	Closed    bool `json:"closed,omitempty"`
+	CloseStep int  `json:"close_step,omitempty"`
 }
 
 type SRejRec struct {
@@ -118,7 +121,7 @@ type SState struct {
 	Rejected     []SRejRec                            `json:"rejected,omitempty"`      // downstream write rejections attributed to a task
 	Down         map[int]bool                         `json:"down,omitempty"`          // downstreams that currently reject every write
 	BadPack      map[string]bool                      `json:"bad_pack,omitempty"`      // packs (by call key) the downstream refuses on every attempt
-	LockOrder    map[string][][3]uint64               `json:"lock_order,omitempty"`    // C03 runs: downstream channel -> (incarnation, closing tick, end message id) of every pack in the order they were computed under the channel lock
+	LockOrder    map[string][][4]uint64               `json:"lock_order,omitempty"`    // C03 runs: downstream channel -> (incarnation, closing tick, end message id, step) of every pack in the order they were computed under the channel lock
 	CkptHist     map[string][][2]int64                `json:"ckpt_hist,omitempty"`     // C03 runs: "task|collection|source pchannel" -> (message id, time in ms) of every version of the stored checkpoint, in the order they were seen
 	StaleAck     map[string]bool                      `json:"stale_ack,omitempty"`     // "target|collection|shard" -> a pack of an earlier registration was acknowledged after the stream had been registered again
 	Forwarded    map[string][][2]int                  `json:"forwarded,omitempty"`     // "collection|source pchannel" -> (start, end] message-id ranges of packs that took the forward path (hook H15)
@@ -635,9 +638,9 @@ func (r *RigS) build() {
 			if r.plan.Prop == "C03" {
 				// the order in which closing ticks are computed under the channel lock (a = the closing tick)
 				if r.st.LockOrder == nil {
-					r.st.LockOrder = map[string][][3]uint64{}
+					r.st.LockOrder = map[string][][4]uint64{}
 				}
-				r.st.LockOrder[ch] = append(r.st.LockOrder[ch], [3]uint64{uint64(r.plan.Incarnation), a, uint64(MsgIDToSeq(p.EndPositions[0].MsgID))})
+				r.st.LockOrder[ch] = append(r.st.LockOrder[ch], [4]uint64{uint64(r.plan.Incarnation), a, uint64(MsgIDToSeq(p.EndPositions[0].MsgID)), uint64(r.s.Step)})
 			}
 			r.mu.Unlock()
 		}
